@@ -29,7 +29,8 @@ def op_tok(op):
         return "r%d" % op[1]
     if op[0] == "c":
         return "c%d" % op[1]
-    cases = ",".join(("s%d=%d" % (c, v)) if snd else ("r%d" % c) for (c, snd, v) in op[2]) or "-"
+    ch = lambda c: "N" if c is None else str(c)      # None = nil channel
+    cases = ",".join(("s%s=%d" % (ch(c), v)) if snd else ("r%s" % ch(c)) for (c, snd, v) in op[2]) or "-"
     return "S:%s:%s" % ("b" if op[1] else "n", cases)
 
 
@@ -506,9 +507,9 @@ def parse_tok(tok):
             for cs in f[2].split(","):
                 if cs[0] == "s":
                     c, v = cs[1:].split("=")
-                    cases.append((int(c), True, int(v)))
+                    cases.append((None if c == "N" else int(c), True, int(v)))
                 else:
-                    cases.append((int(cs[1:]), False, 0))
+                    cases.append((None if cs[1:] == "N" else int(cs[1:]), False, 0))
         return ("S", f[1] == "b", tuple(cases))
     if tok[0] == "s":
         return ("s", int(f[0][1:]), int(f[1]))
